@@ -73,7 +73,7 @@ var nearMissCL = []string{"Content-Lengt", "Content-Length2", "X-Content-Length"
 var nearMissTE = []string{"Transfer-Encodin", "Transfer-Encoding-X", "Transfer_Encoding", "X-Transfer-Encoding", "Transfer.Encoding", "Uransfer-Encoding", "TransferEncoding", "Transfer-Encodingg"}
 
 var hdrNames = []string{"X-A", "x-b", "Accept", "X-Long-Header-Name", "ACCEPT-LANGUAGE", "x-forwarded-for", "Cache-Control", "X-A", "Referer", "If-None-Match", "te", "Via"}
-var hdrVals = []string{"1", "v", "a, b", "text/html; q=0.9", "x=y; z", "0", "chunked", "close-not", "12345678901234567890", "a:b", "inner  spaces"}
+var hdrVals = []string{"1", "v", "a, b", "text/html; q=0.9", "x=y; z", "0", "chunked", "close-not", "12345678901234567890", "a:b", "inner  spaces", ""}
 
 // mixCase flips the case of name letters according to tape bits.
 func mixCase(tp *core.Tape, s string) string {
